@@ -35,12 +35,12 @@ RELEVANT = {
 }
 
 ARGS = {
-    ("C01", "quick"): ["-modes", "paths,sequence,shapes,random", "-sequence-random", "15", "-shape-pipelines", "3", "-random", "300"],
-    ("C01", "thorough"): ["-modes", "paths,sequence,shapes,random,cancel", "-sequence-random", "200", "-shape-pipelines", "3", "-random", "4000", "-cancel-random", "10", "-cancel-reps", "2"],
-    ("C02", "quick"): ["-modes", "paths,sequence,thresholds,cancel", "-sequence-random", "15", "-thr-pipelines", "3", "-cancel-random", "2"],
-    ("C02", "thorough"): ["-modes", "paths,sequence,thresholds,cancel,random", "-sequence-random", "200", "-thr-pipelines", "4", "-cancel-random", "12", "-cancel-reps", "3", "-random", "1500"],
-    ("C03", "quick"): ["-modes", "paths,twosend,cancel,random", "-twosend-reps", "3", "-cancel-random", "6", "-random", "150"],
-    ("C03", "thorough"): ["-modes", "paths,twosend,sequence,cancel,random,shapes", "-twosend-reps", "8", "-twosend-gates", "4", "-sequence-random", "100", "-cancel-random", "40", "-cancel-reps", "4", "-random", "2500", "-shape-pipelines", "3"],
+    ("C01", "quick"): ["-modes", "paths,classes,sequence,shapes,random", "-sequence-random", "15", "-shape-pipelines", "3", "-random", "300"],
+    ("C01", "thorough"): ["-modes", "paths,classes,sequence,shapes,random,cancel", "-sequence-random", "200", "-shape-pipelines", "3", "-random", "4000", "-cancel-random", "10", "-cancel-reps", "2"],
+    ("C02", "quick"): ["-modes", "paths,classes,sequence,thresholds,cancel", "-sequence-random", "15", "-thr-pipelines", "3", "-cancel-random", "2"],
+    ("C02", "thorough"): ["-modes", "paths,classes,sequence,thresholds,cancel,random", "-sequence-random", "200", "-thr-pipelines", "4", "-cancel-random", "12", "-cancel-reps", "3", "-random", "1500"],
+    ("C03", "quick"): ["-modes", "paths,classes,twosend,cancel,random", "-twosend-reps", "3", "-cancel-random", "6", "-random", "150"],
+    ("C03", "thorough"): ["-modes", "paths,classes,twosend,sequence,cancel,random,shapes", "-twosend-reps", "8", "-twosend-gates", "4", "-sequence-random", "100", "-cancel-random", "40", "-cancel-reps", "4", "-random", "2500", "-shape-pipelines", "3"],
 }
 
 ASSUMPTIONS = [
@@ -146,7 +146,10 @@ def run(ctx, prop=None):
         # a hand-off the model does not allow is also a status entry from nowhere (C02)
         # ... and a status handed off where the model expects the traversal to go on to the next node means that node k+1 was
         # not invoked although node k passed the event on (C01)
-        if kind in rel or (prop == "C02" and kind == "KProto" and evk in (5, 12)) or (prop == "C01" and kind == "KProto" and evk in (5, 6)):
+        # ... and a Send for a type WITHOUT graph that nevertheless invoked nodes traversed another type's pipelines (C01)
+        invoked = bool(((cases.get(cid) or {}).get("observed") or {}).get("nodecalls"))
+        if (kind in rel or (prop == "C02" and kind == "KProto" and evk in (5, 12)) or (prop == "C01" and kind == "KProto" and evk in (5, 6))
+                or (prop == "C01" and kind == "KNoGraph" and invoked)):
             by_case.setdefault(cid, []).append((step, evk, kind))
         else:
             others[kind] = others.get(kind, 0) + 1
